@@ -122,51 +122,7 @@ def run(check, an: Analysis):
     # ---- C ------------------------------------------------------------------
     collect = an.callee(SCOPE, '_collect_exceptions')
     cfn = collect.fn
-    loops = [n for n in ast.walk(cfn.node) if isinstance(n, ast.For)]
-    ok_iter = len(loops) == 1 and ast.unparse(loops[0].iter) == 'self._child_failures'
-    check.instance('C', 'iterates-failures-in-order', ok_iter, where_fn(cfn),
-                   'one loop directly over `self._child_failures` (recording order)')
-    n_app = 0
-    for path in an.paths(collect):
-        for index, event in enumerate(path.events):
-            if event.kind == 'call' and isinstance(event.node, ast.Call) and \
-                    isinstance(event.node.func, ast.Attribute) and \
-                    event.node.func.attr == 'append' and event.depth == 0:
-                n_app += 1
-                arg = ast.unparse(event.node.args[0]) if event.node.args else '?'
-                loop_var = ast.unparse(loops[0].target) if loops else '?'
-                facts = event.data.get('facts') or {}
-                promoted = _isinstance_fact(facts, arg, cfn, 'PROMOTE_CONCURRENT')
-                suppressed = _isinstance_fact(facts, arg, cfn, 'SUPPRESS_CONCURRENT')
-                ok = arg == loop_var and promoted is False and suppressed is False
-                check.instance('C', 'append-only-unsuppressed-unpromoted', ok, event.where,
-                               'the failure is collected only after `isinstance(exc, '
-                               'promote)` and `isinstance(exc, suppress)` were both false '
-                               '(%s, %s)' % (promoted, suppressed),
-                               path=rules.path_lines(path, index))
-        if path.kind == 'return':
-            value = path.outcome[1]
-            made = [e for e in path.events if e.kind == 'call' and isinstance(
-                e.node, ast.Call) and ast.unparse(e.node.func) == 'Concurrent']
-            if made:
-                args = [ast.unparse(a) for a in made[0].node.args]
-                target = _append_target(cfn)
-                ok = args == ['*%s' % target] and isinstance(value, ast.Tuple) and \
-                    isinstance(value.elts[0], ast.Constant) and value.elts[0].value is None
-                check.instance('C', 'Concurrent(*collected)', ok, made[0].where,
-                               'the Concurrent carries exactly the collected list: %s' % args,
-                               path=rules.path_lines(path))
-            promoted_ret = [e for e in path.events if tested(
-                e, ('truth', 'isinstance(%s, promote)' % (ast.unparse(loops[0].target)
-                                                          if loops else 'exc')), True)]
-            if promoted_ret:
-                ok = isinstance(value, ast.Tuple) and len(value.elts) == 2 and \
-                    ast.unparse(value.elts[0]) == ast.unparse(loops[0].target) and \
-                    isinstance(value.elts[1], ast.Constant) and value.elts[1].value is None
-                check.instance('C', 'promoted-returned-alone', ok, where_fn(cfn),
-                               'a privileged failure is returned at once, unwrapped',
-                               path=rules.path_lines(path))
-    check.instance('C', 'collects', n_app > 0, where_fn(cfn), 'failures are collected')
+    _check_collect(check, an, collect)
     # ---- E ------------------------------------------------------------------
     # per receiver and per class of pending exception: what can __aexit__ do?
     own = {SCOPE: [CANCEL_SCOPE], _scope.INTERRUPT_SCOPE: [CANCEL_SCOPE],
@@ -281,6 +237,130 @@ def run(check, an: Analysis):
                                          tables['PROMOTE_CONCURRENT']),
                    where_fn(an.method(SCOPE, '__init__')), 'no type is in both tables')
     check.stats.update(an.stats())
+
+
+def _check_collect(check, an: Analysis, collect: Callee):
+    """
+    _collect_exceptions as a function of the failure list, decided per path:
+    the first privileged failure alone; else the unsuppressed ones, in recording order,
+    in one Concurrent; else nothing
+    """
+    cfn = collect.fn
+    paths = an.paths(collect)
+    FAILURES = 'self._child_failures'
+
+    def is_a(atoms, var, table):
+        return atoms.get(('truth', 'isinstance(%s, self.%s)' % (var, table)))
+    order_ok, n_loops = True, 0
+    collect_ok, n_collected, bad_collect = True, 0, None
+    promoted_ok, n_promoted = True, 0
+    concurrent_ok, n_concurrent, bad_conc = True, 0, None
+    nothing_ok, n_nothing = True, 0
+    for path in paths:
+        its = rules.iterations(path)
+        for it in its:
+            n_loops += 1
+            if 'child_failures' in it.source or it.source == FAILURES:
+                order_ok &= it.source == FAILURES
+        over = [it for it in its if it.source == FAILURES]
+        # (1) what is collected, and under which tests
+        collected = {}   # list name -> [(iteration, position)]
+        for it in over:
+            for pos, event in it.events():
+                name = None
+                if event.kind == 'call' and isinstance(event.node, ast.Call) and \
+                        isinstance(event.node.func, ast.Attribute) and \
+                        event.node.func.attr == 'append' and event.depth == 0 and \
+                        isinstance(event.node.func.value, ast.Name) and \
+                        [ast.unparse(a) for a in event.node.args] == [it.var]:
+                    name = event.node.func.value.id
+                elif event.kind == 'element' and ast.unparse(event.node) == it.var:
+                    stored = [e for e in path.events[it.stop:] if e.kind == 'store'
+                              and e.get('value') is event.data.get('comprehension')]
+                    name = stored[0]['path'] if stored else '?'
+                if name is None:
+                    continue
+                n_collected += 1
+                atoms = it.atoms(upto=pos)
+                if is_a(atoms, it.var, 'SUPPRESS_CONCURRENT') is not False:
+                    collect_ok, bad_collect = False, bad_collect or (path, pos)
+                collected.setdefault(name, []).append((it, pos))
+        if path.kind != 'return' or not isinstance(path.outcome[1], ast.Tuple) or \
+                len(path.outcome[1].elts) != 2:
+            if path.kind == 'return':
+                concurrent_ok = False
+            continue
+        end = len(path.events)
+        first = rules.value_expr(path, end, path.outcome[1].elts[0])
+        second = rules.value_expr(path, end, path.outcome[1].elts[1],
+                                  keep=tuple(collected))
+        none_first = isinstance(first, ast.Constant) and first.value is None
+        none_second = isinstance(second, ast.Constant) and second.value is None
+        if not none_first:
+            # (2) a privileged failure: the loop variable of the iteration that found it
+            n_promoted += 1
+            last = over[-1] if over else None
+            good = none_second and last is not None and ast.unparse(first) == last.var and \
+                is_a(last.atoms(), last.var, 'PROMOTE_CONCURRENT') is True and all(
+                    is_a(it.atoms(), it.var, 'PROMOTE_CONCURRENT') is False
+                    for it in over if it.node is last.node and it is not last)
+            promoted_ok &= bool(good)
+            continue
+        # no privileged failure was found: some complete pass tested every failure
+        passes = {}
+        for it in over:
+            passes.setdefault(id(it.node), []).append(it)
+        screened = any(
+            rules.loop_completed(path, group[0].node) and all(
+                is_a(it.atoms(), it.var, 'PROMOTE_CONCURRENT') is False for it in group)
+            for group in passes.values()) or (not over and any(
+                e.kind == 'iter-end' and rules.value_text(
+                    path, rules.event_index(path, e), e.node.iter) == FAILURES
+                for e in path.events))
+        if none_second:
+            # (4) nothing to report: only when nothing was collected
+            n_nothing += 1
+            nothing_ok &= screened and not any(collected.values())
+            continue
+        # (3) one Concurrent of exactly the collected failures
+        n_concurrent += 1
+        good = screened and isinstance(second, ast.Call) and \
+            ast.unparse(second.func) == 'Concurrent' and len(second.args) == 1 and \
+            isinstance(second.args[0], ast.Starred) and not second.keywords and \
+            isinstance(second.args[0].value, ast.Name) and \
+            bool(collected.get(second.args[0].value.id)) and len(collected) == 1
+        if good:
+            # every collected failure was screened before it was collected, or by a
+            # complete earlier pass
+            for it, pos in collected[second.args[0].value.id]:
+                own = is_a(it.atoms(upto=pos), it.var, 'PROMOTE_CONCURRENT')
+                earlier = any(rules.loop_completed(path, g[0].node) and g[0].node is not
+                              it.node and g[-1].stop <= it.start and all(
+                                  is_a(x.atoms(), x.var, 'PROMOTE_CONCURRENT') is False
+                                  for x in g) for g in passes.values())
+                good &= own is False or earlier
+        if not good:
+            concurrent_ok, bad_conc = False, bad_conc or (path, end - 1)
+    check.instance('C', 'iterates-failures-in-order', order_ok and n_loops > 0,
+                   where_fn(cfn), 'every loop runs directly over `self._child_failures` '
+                   '(recording order; %d iterations on paths)' % n_loops)
+    check.instance('C', 'append-only-unsuppressed-unpromoted', collect_ok and n_collected > 0,
+                   where_fn(cfn), 'a failure is collected only after `isinstance(exc, '
+                   'SUPPRESS_CONCURRENT)` was false (%d collections on paths)' % n_collected,
+                   path=rules.path_lines(*bad_collect) if bad_collect else None,
+                   analysed=n_collected)
+    check.instance('C', 'Concurrent(*collected)', concurrent_ok and n_concurrent > 0,
+                   where_fn(cfn), '(None, Concurrent(*collected)) with every collected '
+                   'failure screened for privilege first (%d paths)' % n_concurrent,
+                   path=rules.path_lines(*bad_conc) if bad_conc else None,
+                   analysed=n_concurrent)
+    check.instance('C', 'promoted-returned-alone', promoted_ok and n_promoted > 0,
+                   where_fn(cfn), 'the first privileged failure is returned at once, '
+                   'unwrapped (%d paths)' % n_promoted, analysed=n_promoted)
+    check.instance('C', 'nothing-when-all-suppressed', nothing_ok and n_nothing > 0,
+                   where_fn(cfn), '(None, None) exactly when nothing was collected '
+                   '(%d paths)' % n_nothing, analysed=n_nothing)
+    check.instance('C', 'collects', n_collected > 0, where_fn(cfn), 'failures are collected')
 
 
 def _isinstance_fact(facts, arg, fn, table):
